@@ -395,3 +395,94 @@ def PANIC_ARGS(body, ctx):
             n += 1
         pos = m.end()
     return body, n
+
+
+def C_POSITION(body, ctx):
+    """`X.iter().position(|P| COND)` ->
+    `{ let mut j_: usize = 0; let mut r_: Option<usize> = None;
+       while j_ < X.len() { let P = &X[j_]; if COND { r_ = Some(j_); break; } j_ += 1; } r_ }`
+
+    The forward sibling of C_RPOSITION (rules_closure.py), with the same names for the cursor (`j_`) and the
+    result (`r_`).  std, Iterator::position: "Searches for an element in an iterator, returning its index.
+    position() takes a closure that returns true or false. It applies this closure to each element of the
+    iterator, and if one of them returns true, then position() returns Some(index). If all of them return
+    false, it returns None. position() is short-circuiting; in other words, it will stop processing as soon as
+    it finds a true."; slice::iter yields `&X[0]`, .., `&X[len-1]`, so the closure parameter is bound to
+    `&X[j_]` and the index is the slice index.
+    X must be a place expression (it is evaluated more than once); X, P and COND are re-emitted unchanged."""
+    from rules_closure import _closure_arg, _first, _is_place, _receiver_start
+    n = 0
+    rx = re.compile(r'\.\s*iter\s*\(\s*\)\s*\.\s*position\s*\(\s*(?=\|)')
+    while True:
+        mask = code_mask(body)
+        m = _first(rx, body, mask)
+        if not m:
+            break
+        s = _receiver_start(body, m.start(), mask, 'C_POSITION')
+        x = re.sub(r'\s+', '', body[s:m.start()].strip())
+        if not _is_place(x):
+            raise LostAnchor('C_POSITION: receiver `%s` is not a place expression' % x)
+        pat, cond, pc = _closure_arg(body, m.end(), mask, 'C_POSITION')
+        new = ('{ let mut j_: usize = 0; let mut r_: Option<usize> = None;\n'
+               '            while j_ < %s.len() { let %s = &%s[j_]; if %s { r_ = Some(j_); break; } j_ += 1; }\n'
+               '            r_ }' % (x, pat, x, cond))
+        body = body[:s] + new + body[pc + 1:]
+        n += 1
+    return body, n
+
+
+def C_RETAIN_MAP(body, ctx):
+    """`M.retain(|K, V| PRED);`  (M a std map place / call chain, PRED a pure expression that only READS K and V)
+    -> `map_retain(&mut M, |K', V'| -> (b_: bool) ensures b_ == (PRED) { PRED });`
+
+    std, HashMap::retain: "Retains only the elements specified by the predicate. In other words, remove all pairs
+    (k, v) for which f(&k, &mut v) returns false. The elements are visited in unsorted (and unspecified) order."
+    `map_retain` (prelude/retain.rs) is that statement for a predicate that does not modify the value, over the
+    closure's own specification; the rule states the closure's specification - its result IS its body - and names
+    wildcard parameters (`_` -> `w1_`, `w2_`: Verus closures take variables only).  M, K, V and PRED are re-emitted
+    unchanged; a predicate with statements, control flow or a non-variable parameter pattern is a LostAnchor."""
+    from rules_closure import _first, _receiver_start
+    n = 0
+    rx = re.compile(r'\.\s*retain\s*\(\s*(?=\|)')
+    while True:
+        mask = code_mask(body)
+        m = _first(rx, body, mask)
+        if not m:
+            break
+        s = _receiver_start(body, m.start(), mask, 'C_RETAIN_MAP')
+        recv = body[s:m.start()].strip()
+        po = body.rindex('(', m.start(), m.end())
+        pc = match_close(body, po, mask)
+        clo = body[po + 1:pc].strip()
+        if clo.endswith(','):
+            clo = clo[:-1].rstrip()
+        bar = find_top(clo, r'\|', 1)
+        if not bar:
+            raise LostAnchor('C_RETAIN_MAP: closure parameter list not closed')
+        params = [p.strip() for p in clo[1:bar.start()].split(',')]
+        pred = clo[bar.end():].strip()
+        if len(params) != 2:
+            raise LostAnchor('C_RETAIN_MAP: the predicate of a map `retain` takes (key, value)')
+        names = []
+        for k, p in enumerate(params, 1):
+            if p == '_':
+                names.append('w%d_' % k)
+            elif re.fullmatch(IDENT, p):
+                names.append(p)
+            else:
+                raise LostAnchor('C_RETAIN_MAP: closure parameter `%s` is not a variable or `_`' % p)
+        if pred.startswith('{') and match_close(pred, 0) == len(pred) - 1:
+            pred = pred[1:-1].strip()
+        pmask = code_mask(pred)
+        for mm in re.finditer(r'(?<![A-Za-z0-9_])(return|break|continue|let|while|loop|for)(?![A-Za-z0-9_])|[;?]|(?<![=!<>+\-*/%&|^])=(?!=)', pred):
+            if pmask[mm.start()]:
+                raise LostAnchor('C_RETAIN_MAP: predicate is not a pure expression (`%s`)' % mm.group(0))
+        k = pc + 1
+        while k < len(body) and body[k] in ' \t\r\n':
+            k += 1
+        if k >= len(body) or body[k] != ';':
+            raise LostAnchor('C_RETAIN_MAP: `retain(..)` is not a statement')
+        new = 'map_retain(&mut %s, |%s, %s| -> (b_: bool) ensures b_ == (%s) { %s });' % (recv, names[0], names[1], pred, pred)
+        body = body[:s] + new + body[k + 1:]
+        n += 1
+    return body, n
